@@ -45,6 +45,12 @@ CLAIMED = {
  "C08": dict(technique="TLA+ lexer with literal denotations on exact arithmetic (Lexer.tla) evaluated by TLC over literal families, keyword-collision words and layout interleavings; values compared exactly with reval's parser",
    text="Literal denotations are computed by the spec on exact arithmetic (positional value in four radices with BigInt; floats as the IEEE-754 nearest double of the decimal rational, ties to even; decimals with scale kept and half-even rounding only beyond 28 digits; the escape table) and compared exactly with what the code parses (floats bitwise, decimals with scale). TLC also enumerates all words up to length N over the keyword-prefix collision alphabet (longest match) and every assignment of 6-10 separators (blanks, tabs, newlines, CRLF, NBSP, comments, nothing) to base token sequences, checking on the spec that layout never changes the tokens.",
    ref="6 C08", note="Trusted: Lexer.tla token classes and Denote; Float.tla rounding. Families are finite samples of the literal space (boundaries, halfway cases, subnormals)."),
+ "C14": dict(technique="TLA+ rule-text reader (RuleText.tla) checked by TLC against an independent restatement of the extraction rules; every assembled text replayed into Rule::parse",
+   text="TLC assembles every text of at most N lines from a pool of line kinds with LF / CRLF endings and checks the spec's reader against the property restated directly (expression = what the text after the @-prefix parses to; one entry per key, last occurrence; name/description precedence; missing name only without comment lines); each text goes to Rule::parse and name(), description(), iter_metadata(), get_metadata(), expr() or the error class are compared.",
+   ref="6 C14", note="Trusted: RuleText.tla. Modelling bound (DESIGN 6 C14): comment-looking lines inside multi-line string literals and lone-CR line breaks are not generated."),
+ "C16": dict(technique="TLA+ printer + lexer + grammar: round trip model-checked by TLC on the spec; every tree printed and re-parsed by reval; the printed texts validated by TLC as a trace against the spec's lexer and grammar",
+   text="TLC enumerates the trees of the parser's image (every kind in every child position of every other kind, literal leaves from the literal families) and checks on the specification that printing then parsing is the identity; the harness prints every tree with the code's Display, parses the text back with the code and compares; the recorded (tree, text) pairs are then validated by TLC: the specification's lexer and grammar must read each printed text as exactly that tree (so grouping, operators, literal values and string contents are all pinned).",
+   ref="6 C16", note="Trusted: Lexer.tla / Grammar.tla as the reading of valid rule syntax. 'Evaluates identically' follows from tree equality and determinism (C12)."),
 }
 NA = {
  "C19": "stack exhaustion is a resource limit of the host (frame size x thread stack), not a property of an abstract transition system; a TLA+ model can only restate 'depth is unbounded' (DESIGN section 7)",
